@@ -12,7 +12,9 @@ CONSTANTS
   Matchers = {1, 2}
   BufSize = 1
   Kind <- MCKind
-  Sel <- MCSel
+  Class <- MCClass
+  Wants <- MCWants
+  MTypes = {"matcher", "leaf"}
 INIT SInit
 NEXT SNext
 INVARIANTS TypeOK Accounting CallbackSound CallbackComplete ProcessedAll ScanComplete
